@@ -150,6 +150,15 @@ func Main(registry func(property string, thorough bool) []Scenario) {
 	}
 	prop := os.Args[1]
 	scs := registry(prop, evid.Thorough())
+	if only := os.Getenv("VERIF_ONLY"); only != "" { // debugging aid: only the scenarios whose name contains this
+		var keep []Scenario
+		for _, s := range scs {
+			if strings.Contains(s.Name, only) {
+				keep = append(keep, s)
+			}
+		}
+		scs = keep
+	}
 	if len(scs) == 0 {
 		evid.EngineError(prop, "no scenario registered")
 	}
